@@ -139,6 +139,10 @@ def check(report, tier, seed):
             n_r, n_v = rendercheck.compare(report, tx, impl, "input", ids=order, limit=2500 if tier == "quick" else 60000)
             res["renderings_compared_with_model"] = n_r
             res["error_variants_rendered"] = n_v
+            import frontcheck
+            sres = frontcheck.compare_stderr(report, {cid: tx[cid] for cid in order}, impl, "input", limit=300 if tier == "quick" else 8000)
+            for k_, v_ in sres.items():
+                res["model_" + k_] = v_
     # a sample through the real binary: exit status, stderr, wall time
     cli = lib.build_cli("dev")
     sample = rng.sample(texts, 60 if tier == "quick" else 600) + ["\xff\xfe\x00 invalid utf8".encode("latin-1")]
